@@ -104,9 +104,7 @@ theorem reserveExc_no_fuel (m : Machine) (r : Nat) (amt : Int) :
     · simp
     · split
       · simp
-      · split
-        · simp
-        · exact ih _
+      · exact ih _
 
 theorem applyReserve_no_fuel (m : Machine) (r : Nat) (amt : Int) (at_ : Option Chip) :
     applyReserve m r amt at_ ≠ .error .fuel := by
